@@ -587,6 +587,9 @@ def slot_size(item):
     return (item_size(item) + 15) // 16 * 16
 
 
+HOP_CPUS = ["msm5054", "kenbak", "sx20", "ns32016", "87c00", "st6210", "atmega8", "96c141", "msm6051"]
+
+
 class Program:
     """renders a whole program and computes the expectation"""
 
@@ -597,6 +600,10 @@ class Program:
         t = w.t
         self.expect = {}              # byte address -> byte (CODE segment)
         self.slots = []               # (item index, call index, base, expected bytes)
+        if style % 4 == 1:
+            # another target first: what it claims as machine instructions (SWITCH, PAGE, SET, SHIFT, SAVE ...) is
+            # given back when the program's own target is selected
+            w.emit("\tcpu\t" + HOP_CPUS[(style >> 2) % len(HOP_CPUS)])
         w.emit("\tcpu\t" + cpu)
         for p in t["pre"]:
             w.emit("\t" + p)
